@@ -227,6 +227,180 @@ func restoreGlobals() {
 	}
 }
 
+// ---------------------------------------------------------------------------------------------
+// state-directed scenarios: which package-level location does each vector write?
+
+func leafHashes() map[string]uint64 {
+	out := map[string]uint64{}
+	hash := func(v reflect.Value) uint64 {
+		h := fnv.New64a()
+		h.Write([]byte(dump.OfValue(v)))
+		return h.Sum64()
+	}
+	var walk func(path string, v reflect.Value, depth int)
+	walk = func(path string, v reflect.Value, depth int) {
+		switch v.Kind() {
+		case reflect.Ptr, reflect.Interface:
+			if v.IsNil() || depth > 6 {
+				out[path] = hash(v)
+				return
+			}
+			walk(path, v.Elem(), depth+1)
+		case reflect.Struct:
+			if depth > 4 || v.NumField() == 0 {
+				out[path] = hash(v)
+				return
+			}
+			for i := 0; i < v.NumField(); i++ {
+				walk(path+"."+v.Type().Field(i).Name, v.Field(i), depth+1)
+			}
+		case reflect.Array, reflect.Slice:
+			if v.Len() == 0 || v.Len() > 1<<17 {
+				out[path] = hash(v)
+				return
+			}
+			for i := 0; i < v.Len(); i++ {
+				out[fmt.Sprintf("%s[%d]", path, i)] = hash(v.Index(i))
+			}
+			out[path+".len"] = uint64(v.Len())
+		case reflect.Map:
+			it := v.MapRange()
+			for it.Next() {
+				out[path+"["+dump.OfValue(it.Key())+"]"] = hash(it.Value())
+			}
+			out[path+".len"] = uint64(v.Len())
+		default:
+			out[path] = hash(v)
+		}
+	}
+	all := verifreg.All()
+	for pkg, m := range all {
+		for k, p := range m {
+			walk(pkg+"."+k, reflect.ValueOf(p).Elem(), 0)
+		}
+	}
+	return out
+}
+
+type discovery struct {
+	Candidates       int                   `json:"candidate_vectors_run_from_a_cold_start"`
+	Writers          int                   `json:"candidates_that_changed_package_level_state"`
+	Locations        int                   `json:"package_level_locations_written_by_some_but_not_most_candidates"`
+	SharedLocations  int                   `json:"locations_written_by_two_or_more_different_vectors"`
+	Groups           []scen.CollisionGroup `json:"groups"`
+	StoppedEarly     []string              `json:"stopped_early,omitempty"`
+	Seconds          float64               `json:"seconds"`
+	BudgetHit        bool                  `json:"budget_hit,omitempty"`
+	MostWrittenPaths []string              `json:"locations_written_by_most_candidates,omitempty"`
+}
+
+// discover runs every candidate vector from a cold start and records which package-level
+// locations changed; vectors that write one common location (which most other vectors do not
+// write) form a collision group.
+func discover() discovery {
+	t0 := time.Now()
+	var d discovery
+	restoreGlobals()
+	base := leafHashes()
+	for _, ver := range []int{3, 2} {
+		cands := scen.CollisionCandidates(ver)
+		writers := map[string][]int{}
+		ran, wrote := 0, 0
+		for ci, c := range cands {
+			if time.Since(t0) > 150*time.Second {
+				d.BudgetHit = true
+				break
+			}
+			if ran == 400 && wrote == 0 {
+				d.StoppedEarly = append(d.StoppedEarly, fmt.Sprintf("CVSS v%d: none of the first 400 candidates changed any package-level state; the remaining %d were not run", ver, len(cands)-ran))
+				break
+			}
+			restoreGlobals()
+			func() {
+				defer func() { recover() }()
+				scen.CollisionOp(ver, c)
+			}()
+			ran++
+			now := leafHashes()
+			changed := false
+			for p, h := range now {
+				if bh, ok := base[p]; !ok || bh != h {
+					writers[p] = append(writers[p], ci)
+					changed = true
+				}
+			}
+			for p := range base {
+				if _, ok := now[p]; !ok {
+					writers[p] = append(writers[p], ci)
+					changed = true
+				}
+			}
+			if changed {
+				wrote++
+			}
+		}
+		d.Candidates += ran
+		d.Writers += wrote
+		var paths []string
+		for p, w := range writers {
+			if strings.HasSuffix(p, ".len") {
+				continue
+			}
+			if len(w)*2 > ran {
+				if len(d.MostWrittenPaths) < 6 {
+					d.MostWrittenPaths = append(d.MostWrittenPaths, p)
+				}
+				continue
+			}
+			d.Locations++
+			if len(w) >= 2 {
+				d.SharedLocations++
+				paths = append(paths, p)
+			}
+		}
+		// groups: most writers first; at most one group per top-level variable, three per version
+		sort.Slice(paths, func(i, j int) bool {
+			if len(writers[paths[i]]) != len(writers[paths[j]]) {
+				return len(writers[paths[i]]) > len(writers[paths[j]])
+			}
+			return paths[i] < paths[j]
+		})
+		seenVar := map[string]int{}
+		n := 0
+		for _, p := range paths {
+			v := p
+			if i := strings.IndexAny(p, "["); i > 0 {
+				v = p[:i]
+			}
+			if seenVar[v] >= 2 || n >= 3 {
+				continue
+			}
+			seenVar[v]++
+			n++
+			g := scen.CollisionGroup{Ver: ver, Path: p}
+			for _, ci := range writers[p] {
+				if len(g.Vectors) < 3 {
+					g.Vectors = append(g.Vectors, cands[ci])
+				}
+			}
+			d.Groups = append(d.Groups, g)
+		}
+	}
+	restoreGlobals()
+	sort.Strings(d.MostWrittenPaths)
+	d.Seconds = time.Since(t0).Seconds()
+	return d
+}
+
+func loadCollisionsFromEnv() {
+	if js := os.Getenv("VERIF_SCHED_COLLISIONS"); js != "" {
+		var gs []scen.CollisionGroup
+		if json.Unmarshal([]byte(js), &gs) == nil {
+			scen.LoadCollisions(gs)
+		}
+	}
+}
+
 // result of exploring one scenario at one bound
 type scResult struct {
 	Scenario        string         `json:"scenario"`
@@ -321,8 +495,17 @@ func (e *explorer) violation(kind string, x *sched.Exec, observed, expected stri
 		return
 	}
 	e.res.Violations = append(e.res.Violations, ev.Violation{Kind: kind,
-		Case:     map[string]any{"scenario": e.sc.Name, "ops": e.sc.Ops, "shared": e.sc.Shared, "schedule": x.ChoiceList(len(x.Points)), "preemption_bound": e.bound, "context_switches": x.Switches},
+		Case:     withCollisions(e.sc, map[string]any{"scenario": e.sc.Name, "ops": e.sc.Ops, "shared": e.sc.Shared, "schedule": x.ChoiceList(len(x.Points)), "preemption_bound": e.bound, "context_switches": x.Switches}),
 		Observed: observed, Expected: expected})
+}
+
+// withCollisions: a state-directed scenario only exists relative to the discovered groups; the
+// artefact carries them so that the replay can rebuild the scenario.
+func withCollisions(sc scen.Scenario, c map[string]any) map[string]any {
+	if sc.IsCollision() {
+		c["collision_groups_json"] = os.Getenv("VERIF_SCHED_COLLISIONS")
+	}
+	return c
 }
 
 func preemptionsBefore(x *sched.Exec, i int) int {
@@ -663,11 +846,21 @@ func jobsFor(tier string) []job {
 			js = append(js, job{sc, mb, 300, 4 * time.Minute})
 		}
 	}
+	// state-directed scenarios (vectors that write one package-level location): bound 3, and all
+	// schedules where the executions are short enough
+	for _, sc := range scen.Collisions() {
+		if tier == "thorough" {
+			js = append(js, job{sc, 3, 0, 8 * time.Minute})
+		} else {
+			js = append(js, job{sc, 3, 400, 4 * time.Minute})
+		}
+	}
 	return js
 }
 
 func worker(tier string, i, n int) {
 	runtime.GOMAXPROCS(1)
+	loadCollisionsFromEnv()
 	if tier == "thorough" {
 		unboundedLimit = 260
 	} else {
@@ -706,6 +899,18 @@ func parent(tier string) int {
 	n := 4 * runtime.NumCPU()
 	sem := make(chan struct{}, runtime.NumCPU())
 	exe, _ := os.Executable()
+	// state-directed scenarios: the discovery pass runs in a child (it executes library code), its
+	// groups are handed to every worker through the environment
+	var disc discovery
+	if out, err := exec.Command(exe, "discover", tier).Output(); err == nil && json.Unmarshal(out, &disc) == nil {
+		if b, err := json.Marshal(disc.Groups); err == nil && len(disc.Groups) > 0 {
+			os.Setenv("VERIF_SCHED_COLLISIONS", string(b))
+			loadCollisionsFromEnv()
+		}
+		r.Set("collision_discovery", disc)
+	} else {
+		r.Set("collision_discovery", "the discovery pass did not finish; no state-directed scenarios were added")
+	}
 	var mu sync.Mutex
 	var all []*scResult
 	var stuck []string
@@ -862,7 +1067,7 @@ func parent(tier string) int {
 		s := all[len(all)/2]
 		r.Sample(map[string]any{"scenario": s.Scenario, "preemption_bound": s.Bound, "schedules": s.Executions, "max_points": s.MaxPoints, "distinct_outcomes": s.Outcomes})
 	}
-	r.Set("rule", "every schedule of every scenario up to the stated preemption bound (iterative context bounding; switches at a thread's end are free), plus for the scenarios with the shortest executions ALL schedules (no preemption bound) with state pruning on per-thread step counts while no context switch observes changed shared state, executed on the real code instrumented with a scheduling point before every statement of every library package; scenarios: every unordered pair of the operation catalogue (mc/internal/scen: 20 operations in the pair catalogue, 7 bulk operations) incl. a||a, with a shared decoded receiver and with distinct receivers, a||a and decode||query pairs on distinct objects with IDENTICAL inputs in every thread (twin mode: one cache key hit from all threads), plus 3-thread scenarios (six mixed ones and every multiset of three short queries on one shared object); oracle per execution: every operation's result equals the sequential result, shared objects' observables unchanged, the same operations repeated sequentially after the concurrent phase still give the sequential results, no panic, no deadlock; determinism obligations: the empty schedule twice gives identical traces, every replayed prefix offers the recorded choices")
+	r.Set("rule", "every schedule of every scenario up to the stated preemption bound (iterative context bounding; switches at a thread's end are free), plus for the scenarios with the shortest executions ALL schedules (no preemption bound) with state pruning on per-thread step counts while no context switch observes changed shared state, executed on the real code instrumented with a scheduling point before every statement of every library package; scenarios: every unordered pair of the operation catalogue (mc/internal/scen: 20 operations in the pair catalogue, further bulk operations) incl. a||a, with a shared decoded receiver and with distinct receivers, a||a and decode||query pairs on distinct objects with IDENTICAL inputs in every thread (twin mode: one cache key hit from all threads), plus 3-thread scenarios (six mixed ones and every multiset of three short queries on one shared object), plus state-directed scenarios: a discovery pass runs several thousand vectors one by one from a cold start, records which package-level location each writes, and every group of vectors that write one common location becomes 2- and 3-thread scenarios explored to preemption bound 3 (none on a tree without input-keyed package-level state); oracle per execution: every operation's result equals the sequential result, shared objects' observables unchanged, the same operations repeated sequentially after the concurrent phase still give the sequential results, no panic, no deadlock; determinism obligations: the empty schedule twice gives identical traces, every replayed prefix offers the recorded choices")
 	r.Assume("statement-level atomicity and sequentially consistent memory; code outside the library's own packages (fmt, text/template, x/text, errs) runs atomically between two scheduling points; data races inside one statement are left to the separate free-running -race pass")
 	r.Assume("every package-level variable of every library package is reset to its value at process start before each execution (so lazily built tables and caches are cold in every execution); state inside other packages is not reset")
 	r.Assume("at most 3 goroutines; goroutines started by the library itself would not be controlled (the library starts none)")
@@ -892,8 +1097,12 @@ func replay(path string) int {
 	}
 	c := doc.Violation.Case
 	name, _ := c["scenario"].(string)
+	if js, ok := c["collision_groups_json"].(string); ok && js != "" {
+		os.Setenv("VERIF_SCHED_COLLISIONS", js)
+		loadCollisionsFromEnv()
+	}
 	var sc *scen.Scenario
-	for _, s := range append(append(append(scen.Pairs(), scen.Triples()...), scen.QueryTriples()...), append(append(scen.Bulk(), scen.Tiny()...), scen.Twins()...)...) {
+	for _, s := range append(append(append(append(scen.Pairs(), scen.Triples()...), scen.QueryTriples()...), append(append(scen.Bulk(), scen.Tiny()...), scen.Twins()...)...), scen.Collisions()...) {
 		if s.Name == name {
 			s := s
 			sc = &s
@@ -942,6 +1151,9 @@ func main() {
 	switch os.Args[1] {
 	case "run":
 		os.Exit(parent(os.Args[2]))
+	case "discover":
+		b, _ := json.Marshal(discover())
+		os.Stdout.Write(b)
 	case "worker":
 		i, _ := strconv.Atoi(os.Args[3])
 		n, _ := strconv.Atoi(os.Args[4])
